@@ -502,6 +502,9 @@ func (r *fileRewriter) expr(e ast.Expr) ast.Expr {
 	switch x := e.(type) {
 	case *ast.Ident:
 		if r.cfg.HB {
+			if g := r.globalAccess(x, x); g != nil {
+				return g
+			}
 			return r.varAccess(x)
 		}
 	case *ast.UnaryExpr:
@@ -555,6 +558,11 @@ func (r *fileRewriter) expr(e ast.Expr) ast.Expr {
 		}
 	case *ast.SelectorExpr:
 		if pkg, name, ok := r.pkgFunc(x); ok {
+			if r.cfg.HB {
+				if g := r.globalAccess(x.Sel, x); g != nil {
+					return g
+				}
+			}
 			switch {
 			case pkg == "time" && timeRedirect[name] != "":
 				r.stats["time"]++
@@ -677,6 +685,25 @@ func (r *fileRewriter) findSharedVars() {
 			delete(r.sharedVar, v)
 		}
 	}
+}
+
+// globalAccess: id names a package-level variable of a target package (written as e: the bare
+// identifier, or pkg.Name from another package): the access is reported to the race monitor like a
+// field access (name "global:pkg.Name"). Lazily initialised tables and caches live there.
+func (r *fileRewriter) globalAccess(id *ast.Ident, e ast.Expr) ast.Expr {
+	v, ok := r.info.Uses[id].(*types.Var)
+	if !ok || v.IsField() || v.Pkg() == nil || v.Parent() != v.Pkg().Scope() || !r.targets[v.Pkg().Path()] {
+		return nil
+	}
+	if r.addrOf[e] || isSyncType(v.Type()) {
+		return nil
+	}
+	fn := "R"
+	if r.lhs[e] {
+		fn = "W"
+	}
+	r.stats["global"+fn]++
+	return &ast.StarExpr{X: call(r.vrt(fn), &ast.UnaryExpr{Op: token.AND, X: e}, str("global:"+v.Pkg().Name()+"."+v.Name()))}
 }
 
 func (r *fileRewriter) varAccess(x *ast.Ident) ast.Expr {
